@@ -56,7 +56,7 @@ def RO(p, **kw):
 
 
 def emu(p, lo, hi, **kw):
-    kw.setdefault("typ", (914400, 12700, 360000))
+    kw.setdefault("typ", (914400, 12700, 360000, 0))        # 0: a coordinate that is falsy
     return P(p, "emu", lo=lo, hi=hi, q=1, **kw)
 
 
